@@ -6,9 +6,10 @@ root, rnd = sys.argv[1], sys.argv[2]
 for i in range(1, 21):
     pid = "C%02d" % i
     base = os.path.join(root, pid)
-    src = base + "/break"
-    if os.path.isfile(src + "/patch.diff"):
-        dst = "/verif/seeded/%s-r%s-break" % (pid, rnd)
+    for bk in ("break", "breakA", "breakB"):
+      src = base + "/" + bk
+      if os.path.isfile(src + "/patch.diff"):
+        dst = "/verif/seeded/%s-r%s-%s" % (pid, rnd, bk)
         os.makedirs(dst, exist_ok=True)
         for f in ("patch.diff", "demo.py", "notes.md"):
             if os.path.isfile(src + "/" + f):
@@ -18,7 +19,7 @@ for i in range(1, 21):
         suite = re.search(r"== suite with change\n(.*)", log)
         dw = re.search(r"== demo with change\n(?:.*\n)*?exit=(\d+)", log)
         do = re.search(r"== demo without change\n(?:.*\n)*?exit=(\d+)", log)
-        meta = dict(property=pid, name="%s-r%s-break" % (pid, rnd), round=int(rnd),
+        meta = dict(property=pid, name="%s-r%s-%s" % (pid, rnd, bk), round=int(rnd),
                     origin="independent sub-agent given only the property text and a scratch worktree of /repo HEAD",
                     confirmed=dict(how="tools/verify_round.sh -> tools/verify_seed.sh: fresh scratch worktree, repository suite, demo with/without the change, every check with SA_REPO=<scratch>",
                                    suite_with_change=suite.group(1).strip() if suite else "", demo_with_change="exit %s" % (dw.group(1) if dw else "?"),
